@@ -686,7 +686,8 @@ def _parse_replacement_field(state: _ParserState) -> Union[str, ReplacementField
     arg_name_str = "".join(arg_name_chars)
     if not arg_name_str:
         arg_name = None
-    elif arg_name_str.isdigit():
+    elif arg_name_str.isascii() and arg_name_str.isdigit():
+        # str.format() only treats ASCII digits as a positional index ('{\u00b2}' is a keyword)
         arg_name = int(arg_name_str)
     else:
         arg_name = arg_name_str
